@@ -2,7 +2,7 @@
 from harness import common as C
 from harness.props.c13 import ctree
 
-FILES = ["Containers/VSpace.v", "Containers/VSpaceProof.v", "Containers/ContainerOps.v", "Containers/ContainerSlice.v",
+FILES = ["Containers/VSpace.v", "Containers/VSpaceProof.v", "Containers/ContainerOps.v", "Containers/ContainerSlice.v", "Containers/ContainerSel.v",
          "Containers/ContainerProof.v", "Containers/Run13.v", "Props/C12.v"]
 RULE = ("random nested containers (depth <= 3, arity 0..4, empty containers, key sets) with integer-valued leaves; "
         "one container primitive per case (integer index incl. negative and out of range, slices with None/negative/"
@@ -25,6 +25,8 @@ def cop(op):
         return "(OTake (IInt %s))" % C.cz(op[1])
     if op[0] == "slice":
         return "(OTake (ISlice %s %s))" % (oz(op[1]), oz(op[2]))
+    if op[0] == "sel":
+        return "(OSel %s)" % C.clist([C.cnat(i) for i in op[4]])
     if op[0] == "key":
         return "(OTake (IKey %s))" % C.cnat(op[1])
     if op[0] == "extr":
